@@ -241,6 +241,41 @@ def run(ctx):
                 if o[0] != "ok" or o[1] != want_all[i:i + n] or any(x.tzinfo is not zone for x in o[1]):
                     ctx.violation(what="regular get_timestamps across a change of the UTC offset", start=str(start), interval=str(step), offset=str(off), i=i, n=n,
                                   observed=(show(o)[:160] if o[0] != "ok" else str([str(x) for x in o[1]])[:300]), required=str([str(x) for x in want_all[i:i + n]])[:300])
+    # irregular sequences whose neighbours are the SAME instant written in different zones, one of them a wall time in a repeated or skipped
+    # hour (PEP 495: such a pair is neither `<` nor `>` - and not `==` either): accepted exactly when the sequence is non-decreasing or
+    # non-increasing under `<=` / `>=`, and then served unchanged
+    import itertools as _it2
+    try:
+        import zoneinfo as _zi
+        berlin, newyork = _zi.ZoneInfo("Europe/Berlin"), _zi.ZoneInfo("America/New_York")
+    except Exception:                                       # noqa: BLE001 - no tz database: the hand-written zone below still gives repeated hours
+        berlin = newyork = None
+    utc_ = _dt.timezone.utc
+    pool = [_dt.datetime(2024, 10, 27, 0, 30, tzinfo=utc_), _dt.datetime(2024, 10, 27, 1, 30, tzinfo=utc_), _dt.datetime(2024, 10, 27, 5, 0, tzinfo=utc_),
+            _dt.datetime(2024, 10, 26, 23, 0, tzinfo=utc_), _dt.datetime(2024, 10, 27, 2, 30, tzinfo=_dt.timezone(_dt.timedelta(hours=2)))]
+    if berlin is not None:
+        pool += [_dt.datetime(2024, 10, 27, 2, 30, tzinfo=berlin), _dt.datetime(2024, 10, 27, 2, 30, tzinfo=berlin, fold=1), _dt.datetime(2024, 3, 31, 2, 30, tzinfo=berlin),
+                 _dt.datetime(2024, 11, 3, 1, 30, tzinfo=newyork, fold=1), _dt.datetime(2024, 10, 27, 1, 0, tzinfo=berlin)]
+    pool += [_dt.datetime(2025, 10, 26, 2, 30, tzinfo=zone), _dt.datetime(2025, 10, 26, 2, 30, tzinfo=zone, fold=1), _dt.datetime(2025, 10, 26, 0, 30, tzinfo=utc_)]
+    for k_ in (2, 3):
+        for seq in _it2.product(range(len(pool)), repeat=k_):
+            if k_ == 3 and (seq[0] * 5 + seq[1] * 3 + seq[2]) % (4 if ctx.quick else 1):
+                continue
+            stamps = [pool[i] for i in seq]
+            mono = all(a <= b for a, b in zip(stamps, stamps[1:])) or all(a >= b for a, b in zip(stamps, stamps[1:]))
+            o = outcome(lambda: Timing.create_with_irregular_interval(stamps))
+            ctx.case(("irregular-interzone", seq))
+            if mono:
+                good = o[0] == "ok" and [(x, x.tzinfo, x.fold) for x in o[1].get_timestamps(0, k_)] == [(x, x.tzinfo, x.fold) for x in stamps]
+            else:
+                good = o[0] == "err" and o[1] == "ValueError"
+            if not good:
+                ctx.violation(what="irregular timing from datetimes of several zones (same instants, repeated / skipped hours)", timestamps=str([f"{x.isoformat()} fold={x.fold}" for x in stamps])[:300],
+                              non_decreasing_or_non_increasing=mono, observed=show(o)[:160], required="accepted and served unchanged" if mono else "ValueError")
+                break
+        else:
+            continue
+        break
     # the same instant written in several zones (equal and of equal hash as datetimes), each in its own Timing, queried one after the
     # other in this one process: every Timing answers from ITS OWN timestamp - the zone it shows, and for a zone with a varying offset
     # the instants themselves, are those of its own datetime arithmetic
